@@ -471,6 +471,98 @@ impl Check for PolyNewton {
     }
 }
 
+// ------------------------------------------------------------------ iteration caps of the polynomial iterations
+#[derive(Serialize, Deserialize, Clone, Debug)]
+pub struct CapPt {
+    pub method: String,
+    pub set: usize,
+    pub cap: usize,
+    /// 0: start exactly on the root; 1: start at a quarter of the admissible distance
+    pub start: usize,
+}
+pub struct PolyCaps;
+impl Check for PolyCaps {
+    type P = CapPt;
+    fn name(&self) -> &'static str {
+        "polynomial-iteration-caps"
+    }
+    fn rule(&self) -> String {
+        "newton_polynomial (real and complex) and muller_polynomial with iteration caps 0, 1, 2, 3 on every root set, from a start exactly on the first root and from a start near it: never a panic or a call that does not return; cap 0 from a start that is not the root cannot be Ok (the iteration did not run); a start exactly on a simple root needs one pass (cap >= 1 gives Ok); a polynomial of degree 1 needs two (cap >= 2 gives Ok from any start); signature = (method, cap, start, outcome)".into()
+    }
+    fn points(&self, _t: Tier) -> Vec<CapPt> {
+        let mut v = vec![];
+        for method in ["newton-real", "newton-complex", "muller"] {
+            for set in 0..root_sets().len() {
+                for cap in 0..4 {
+                    for start in 0..2 {
+                        v.push(CapPt { method: method.to_string(), set, cap, start });
+                    }
+                }
+            }
+        }
+        v
+    }
+    fn run(&self, p: &CapPt) -> Outcome {
+        let mut o = Outcome::new();
+        let sets = root_sets();
+        let roots = sets[p.set].clone();
+        let deg = roots.len();
+        let coeffs = expand(&roots, 1.0);
+        let real_poly = coeffs.iter().all(|c| c.im.abs() <= 1e-13 * (1.0 + c.re.abs()));
+        let z = roots[0];
+        let sep = roots.iter().skip(1).map(|w| (w - z).norm()).fold(10.0, f64::min);
+        let delta = 0.25 * sep / (2.0 * deg as f64);
+        let start = if p.start == 0 { z } else { z + C::new(delta, 0.0) };
+        let tol = 1e-9;
+        let subj = if p.method == "muller" { "roots::muller_polynomial" } else { "roots::newton_polynomial" };
+        if p.method == "newton-real" && !(real_poly && z.im == 0.0) {
+            o.sig = "newton-real|not-applicable".into();
+            return o;
+        }
+        let cap = p.cap;
+        let method = p.method.clone();
+        let cc = coeffs.clone();
+        let res: Result<Result<C, String>, String> = vcore::guard_timeout(10, move || {
+            let desc_c: Vec<C> = cc.iter().rev().cloned().collect();
+            match method.as_str() {
+                "newton-real" => {
+                    let desc_r: Vec<f64> = desc_c.iter().map(|c| c.re).collect();
+                    newton_polynomial::<f64>(start.re, &Polynomial::<f64>::from_slice(&desc_r), tol, cap).map(|x| C::new(x, 0.0))
+                }
+                "newton-complex" => newton_polynomial::<C>(start, &Polynomial::<C>::from_slice(&desc_c), tol, cap),
+                _ => {
+                    let h = (0.3 * delta).max(1e-3);
+                    muller_polynomial::<C>((start - h, start + h, start + C::new(0.0, h)), &Polynomial::<C>::from_slice(&desc_c), tol, cap)
+                }
+            }
+        });
+        let ctx = || format!("{:?} roots {:?} start {}", p, roots, start);
+        let class = match &res {
+            Err(m) => {
+                o.viol(subj, if m.contains("non-terminating") { "does-not-loop-beyond-its-cap" } else { "never-panics" }, format!("{}: {}", ctx(), m));
+                "panic"
+            }
+            Ok(Err(e)) => {
+                let newton = p.method != "muller";
+                if newton && ((p.start == 0 && p.cap >= 1) || (deg == 1 && p.cap >= 2)) {
+                    o.viol(subj, "ok-within-the-passes-it-needs", format!("{}: Err({})", ctx(), e));
+                }
+                "err"
+            }
+            Ok(Ok(x)) => {
+                if p.cap == 0 && p.start == 1 {
+                    o.viol(subj, "does-not-loop-beyond-its-cap", format!("{}: Ok({}) with an iteration cap of 0 from a start {:e} away from the root", ctx(), x, delta));
+                } else if !((x - z).norm() <= 1e-6 || roots.iter().any(|w| (w - x).norm() <= 1e-6)) {
+                    o.viol(subj, "returns-that-root", format!("{}: Ok({})", ctx(), x));
+                }
+                "ok"
+            }
+        };
+        o.sig = format!("{}|cap{}|start{}|{}", p.method, p.cap, p.start, class);
+        o
+    }
+}
+
 // ------------------------------------------------------------------ Steffensen
 thread_local! { static CALLS: Cell<u64> = Cell::new(0); }
 fn count() {
@@ -578,6 +670,7 @@ pub fn main(mut r: Report) -> ! {
     ];
     r.run(&Systems);
     r.run(&PolyNewton);
+    r.run(&PolyCaps);
     r.run(&Steffensen);
     r.finish()
 }
